@@ -2,6 +2,7 @@ import Pathrs.Proofs.Props.C10
 import Pathrs.Proofs.Props.C03
 import Pathrs.Proofs.Props.C01
 import Pathrs.Proofs.RunsWorld
+import Pathrs.Proofs.KEffect
 
 /-!
 # C14 — single-entry operations act on exactly (in-root parent, final name)
@@ -20,6 +21,15 @@ and nothing else.  The final name is a single slash-free non-empty component (`p
 and a trailing slash never reaches step 2 (`C03_trailing_slash_*`).  What the kernel does with
 one `*at` call on an `O_PATH` directory descriptor and a single name (it never follows that
 name) is the kernel's contract; the effect oracle of the check compares the whole tree.
+
+**Effect theorems** (`C14_effect_*`, from `Proofs/KEffect.lean`): run against a well-formed world that *mutating
+calls change* — what the kernel does with a mutating call (its answer and the tree afterwards) is an arbitrary
+parameter `μ : MutK`, so the theorems hold for every kernel — `remove_file`/`remove_dir`, `create` (every inode type,
+hard links with their second lookup), `create_file` and `rename` leave exactly the world `μ.eff w c` for the **one**
+mutating call `c` on (`d`, final name), where `d` is the specification's in-root resolution of the parent path
+(`World.resolveInRoot`, C01) on whichever backend is active, and return the wrapper's translation of the kernel's
+answer; when the parent lookup fails, the path has a trailing slash or cannot be split, the world is unchanged.  The
+lookups themselves never make a mutating call (`KEffect.resolve_noMut`, for every environment).
 -/
 
 open K Runs
@@ -241,4 +251,66 @@ theorem C14_parent_inside_root {w : World} (hw : w.WF) (r : Resolver) (parent : 
     (hres : Runs (Resolver.resolve (kenv w) r w.root parent false) h hm (.ok dir))
     (l : Hist) (hl : hm = h ++ l) (ha : AnswersFrom w l) : ∃ p, w.dpath dir = some p :=
   C01_inside_root hw _ parent dir (C14_parent_is_spec hw r parent hnul hres l hl ha)
+
+/-! ### exactly the effect of one `*at` call on (in-root parent, final name) -/
+
+open KRun KSim KSpec World KEffect in
+theorem C14_effect_remove {w : World} (μ : MutK) (hw : w.WF) (r : Resolver) (path parent name : Bytes)
+    (hnul : parent.contains 0 = false) (isDir : Bool) (d : Fd)
+    (hsplit : Path.pathSplit path = .ok (parent, some name))
+    (hres : resolveInRoot w (if r.emulated then ecfg r.rflags false else kcfgK w r.rflags false) parent = .ok d) :
+    exec μ w (Root.removeInode (kenv w) { fd := w.root, resolver := r } path isDir) =
+      (μ.eff w (.unlinkat d name (if isDir then AT_REMOVEDIR else 0)),
+       unitOut (μ.ans w (.unlinkat d name (if isDir then AT_REMOVEDIR else 0))) "unlinkat") :=
+  removeInode_effect μ hw r path parent name hnul isDir d hsplit hres
+
+open KRun KSim KSpec World KEffect in
+theorem C14_effect_create {w : World} (μ : MutK) (hw : w.WF) (r : Resolver) (path parent name : Bytes)
+    (hnul : parent.contains 0 = false) (ty : InodeType) (d : Fd) (c : Call) (site : String)
+    (hsplit : Path.pathSplit path = .ok (parent, some name))
+    (hres : resolveInRoot w (if r.emulated then ecfg r.rflags false else kcfgK w r.rflags false) parent = .ok d)
+    (hc : createSysCall d name ty = some (c, site)) :
+    exec μ w (Root.create (kenv w) { fd := w.root, resolver := r } path ty) = (μ.eff w c, unitOut (μ.ans w c) site) :=
+  create_effect μ hw r path parent name hnul ty d c site hsplit hres hc
+
+open KRun KSim KSpec World KEffect in
+theorem C14_effect_hardlink {w : World} (μ : MutK) (hw : w.WF) (r : Resolver) (path parent name target tparent tname : Bytes)
+    (hnul : parent.contains 0 = false) (hnult : tparent.contains 0 = false) (d dt : Fd)
+    (hsplit : Path.pathSplit path = .ok (parent, some name))
+    (hres : resolveInRoot w (if r.emulated then ecfg r.rflags false else kcfgK w r.rflags false) parent = .ok d)
+    (hsplitt : Path.pathSplit target = .ok (tparent, some tname))
+    (hrest : resolveInRoot w (if r.emulated then ecfg r.rflags false else kcfgK w r.rflags false) tparent = .ok dt) :
+    exec μ w (Root.create (kenv w) { fd := w.root, resolver := r } path (.hardlink target)) =
+      (μ.eff w (.linkat dt tname d name 0), unitOut (μ.ans w (.linkat dt tname d name 0)) "linkat") :=
+  create_hardlink_effect μ hw r path parent name target tparent tname hnul hnult d dt hsplit hres hsplitt hrest
+
+open KRun KSim KSpec World KEffect in
+theorem C14_effect_create_file {w : World} (μ : MutK) (hw : w.WF) (r : Resolver) (path parent name : Bytes)
+    (hnul : parent.contains 0 = false) (flags perm : Nat) (d : Fd)
+    (hsplit : Path.pathSplit path = .ok (parent, some name))
+    (hres : resolveInRoot w (if r.emulated then ecfg r.rflags false else kcfgK w r.rflags false) parent = .ok d) :
+    exec μ w (Root.createFile (kenv w) { fd := w.root, resolver := r } path flags perm) =
+      (μ.eff w (createFileCall d name flags perm), fdOut (μ.ans w (createFileCall d name flags perm)) "openat") :=
+  createFile_effect μ hw r path parent name hnul flags perm d hsplit hres
+
+open KRun KSim KSpec World KEffect in
+theorem C14_effect_rename {w : World} (μ : MutK) (hw : w.WF) (r : Resolver) (src dst p1 n1 p2 n2 : Bytes)
+    (hnul1 : p1.contains 0 = false) (hnul2 : p2.contains 0 = false) (flags : Nat) (d1 d2 : Fd)
+    (hsplit1 : Path.pathSplit src = .ok (p1, some n1))
+    (hres1 : resolveInRoot w (if r.emulated then ecfg r.rflags false else kcfgK w r.rflags false) p1 = .ok d1)
+    (hsplit2 : Path.pathSplit dst = .ok (p2, some n2))
+    (hres2 : resolveInRoot w (if r.emulated then ecfg r.rflags false else kcfgK w r.rflags false) p2 = .ok d2) :
+    exec μ w (Root.rename (kenv w) { fd := w.root, resolver := r } src dst flags) =
+      (μ.eff w (renameSysCall d1 n1 d2 n2 flags),
+       unitOut (μ.ans w (renameSysCall d1 n1 d2 n2 flags)) (renameSite flags)) :=
+  rename_effect μ hw r src dst p1 n1 p2 n2 hnul1 hnul2 flags d1 d2 hsplit1 hres1 hsplit2 hres2
+
+open KRun KSim KSpec World KEffect in
+/-- a trailing slash: nothing changes -/
+theorem C14_frame_trailing_slash {w : World} (μ : MutK) (hw : w.WF) (r : Resolver) (path parent : Bytes)
+    (hnul : parent.contains 0 = false) (isDir : Bool) (d : Fd)
+    (hsplit : Path.pathSplit path = .ok (parent, none))
+    (hres : resolveInRoot w (if r.emulated then ecfg r.rflags false else kcfgK w r.rflags false) parent = .ok d) :
+    exec μ w (Root.removeInode (kenv w) { fd := w.root, resolver := r } path isDir) = (w, .error .invalidArgument) :=
+  removeInode_frame_slash μ hw r path parent hnul isDir d hsplit hres
 
